@@ -54,7 +54,7 @@ var c17LitPieces = []string{"\"", "'", "`", "\\", "[", "]", "é", "日本", "a",
 var c17Idents = []string{"'wé b'", "it[0].k", "it[1].k", "'k[1]'", "é", "it[0]", "'br]['", "nokey", "'a b'.c"}
 var c17IdentsBT = []string{"'q\"x'", "'say \"[hi]\"'"}
 var c17Aliases = []string{"al [1] é", "a\\b", "\\[x", "v é", "a[0]", "[", "]", "it's", "日本", "x'y'z", "a b", "[[x]", "q]"}
-var c17AliasesBT = []string{"q\"uote", "\"", "a\"[1]\"", "k\\", "tail [0]\\", "\\"}
+var c17AliasesBT = []string{"q\"uote", "\"", "a\"[1]\"", "k\\", "tail [0]\\", "\\", "k\\\"", "a\\\\\"b"}
 
 func genC17Literal(t *rapid.T, label string) string {
 	n := rapid.IntRange(0, 6).Draw(t, label+".n")
@@ -273,7 +273,10 @@ func padBrackets(s string) string {
 		switch {
 		case q != 0:
 			sb.WriteByte(ch)
-			if ch == '\\' && q != '`' && i+1 < len(s) {
+			// in a string literal a backslash takes the next character along; in a double-quoted identifier
+			// only \" is an escape (a backslash before anything else is an ordinary character); between
+			// backticks there is no escape at all
+			if ch == '\\' && i+1 < len(s) && (q == '\'' || (q == '"' && s[i+1] == '"')) {
 				i++
 				sb.WriteByte(s[i])
 			} else if ch == q {
